@@ -240,7 +240,7 @@ def refread(buf):
         raise RefError('datatype')
     D = _int(req('$PAR'), '$PAR')
     bits = [_int(req('$P%dB' % i), '$PnB') for i in range(1, D + 1)]
-    if dt == 'I' and any(b % 8 or b > 64 or b <= 0 for b in bits):
+    if dt == 'I' and any(b % 8 or b > 64 or b < 0 for b in bits):
         raise RefError('bit widths')
     if dt == 'F' and any(b != 32 for b in bits):
         raise RefError('float widths')
